@@ -1,6 +1,13 @@
 //! C04 driver: applies a history of store operations to the real DatasetIndex (inside a SparqlDatabase,
 //! so that build_all_indexes is reachable) and reports the output of every operation, canonicalised
 //! (lists sorted, multiplicities kept).  Graph ids: 0 = Default, g+1 = Named(g).
+//!
+//! Dictionary abstraction: the strings "t0".."t9" are encoded first, in order, so that id i <-> "t<i>"
+//! (asserted).  Histories only use ids below 10.  The string-level entry points
+//! (`add_triple_parts`, `delete_triple_parts`, `add_quad_parts`, `QueryBuilder` filters,
+//! `get_decoded_triples`) are driven with these strings; the dictionary itself is property C15's.
+//! `via` selects how Insert/Delete are performed: "index" (DatasetIndex), "db" (SparqlDatabase
+//! add_quad/delete_quad) or "parts" (the string-level mutators where one exists for the graph).
 use kolibrie::sparql_database::SparqlDatabase;
 use serde_json::{json, Value};
 use shared::dataset_index::{GraphId, Quad};
@@ -41,14 +48,68 @@ fn graphs_out(gs: Vec<GraphId>) -> Value {
     json!({"graphs": v})
 }
 
+const NTERMS: u32 = 10;
+fn term(i: u64) -> String {
+    format!("t{}", i)
+}
+fn unterm(s: &str) -> i64 {
+    s.strip_prefix('t').and_then(|d| d.parse::<i64>().ok()).unwrap_or(-1)
+}
+/// QueryBuilder with one filter per bound position; `kinds` picks the filter flavour per position:
+/// e = exact "t<i>", c = contains "t<i>", s = starts-with "t<i>", n = ends-with "<i>" (all equivalent on the
+/// universe t0..t9); a 4th character 'd' adds `.distinct()`.
+fn builder<'a>(db: &'a SparqlDatabase, a: &[Value]) -> kolibrie::query_builder::QueryBuilder<'a> {
+    let kinds: Vec<char> = a.get(4).and_then(|k| k.as_str()).unwrap_or("eee").chars().collect();
+    let kind = |i: usize| kinds.get(i).copied().unwrap_or('e');
+    let mut qb = db.query();
+    if let Some(x) = a[1].as_u64() {
+        qb = match kind(0) {
+            'c' => qb.with_subject_like(&term(x)),
+            's' => qb.with_subject_starting(&term(x)),
+            'n' => qb.with_subject_ending(&x.to_string()),
+            _ => qb.with_subject(&term(x)),
+        };
+    }
+    if let Some(x) = a[2].as_u64() {
+        qb = match kind(1) {
+            'c' => qb.with_predicate_like(&term(x)),
+            's' => qb.with_predicate_starting(&term(x)),
+            'n' => qb.with_predicate_ending(&x.to_string()),
+            _ => qb.with_predicate(&term(x)),
+        };
+    }
+    if let Some(x) = a[3].as_u64() {
+        qb = match kind(2) {
+            'c' => qb.with_object_like(&term(x)),
+            's' => qb.with_object_starting(&term(x)),
+            'n' => qb.with_object_ending(&x.to_string()),
+            _ => qb.with_object(&term(x)),
+        };
+    }
+    if kind(3) == 'd' {
+        qb = qb.distinct();
+    }
+    qb
+}
+
 fn main() {
     vharness::quiet_panics();
     vharness::run_cases(|case| {
         let ops = case["ops"].as_array().unwrap().clone();
-        let via_db = case["via_db"].as_bool().unwrap_or(false);
+        let via: String = match case["via"].as_str() {
+            Some(v) => v.to_string(),
+            None => if case["via_db"].as_bool().unwrap_or(false) { "db".to_string() } else { "index".to_string() },
+        };
         let battery: Vec<Value> = case["battery"].as_array().cloned().unwrap_or_default();
         let r = vharness::catch(move || {
             let mut db = SparqlDatabase::new();
+            {
+                let mut dict = db.dictionary.write().unwrap();
+                for i in 0..NTERMS {
+                    let id = dict.encode(&term(i as u64));
+                    assert_eq!(id, i, "dictionary abstraction: t{} must get id {}", i, i);
+                }
+            }
             let mut outs: Vec<Value> = Vec::new();
             for op0 in &ops {
               let mut step_outs: Vec<Value> = Vec::new();
@@ -58,12 +119,27 @@ fn main() {
                 let out = match tag {
                     "I" => {
                         let q = quad(a, 1);
-                        let b = if via_db { db.add_quad(q) } else { db.dataset_index.insert_quad(&q) };
-                        json!({"bool": b})
+                        let (sx, px, ox, gx) = (a[1].as_u64().unwrap(), a[2].as_u64().unwrap(), a[3].as_u64().unwrap(), a[4].as_u64().unwrap());
+                        match via.as_str() {
+                            "db" => json!({"bool": db.add_quad(q)}),
+                            "parts" if gx == 0 => {
+                                // add_triple_parts returns nothing: the insert's own result is not observable here
+                                db.add_triple_parts(&term(sx), &term(px), &term(ox));
+                                json!({"unit": true})
+                            }
+                            "parts" => json!({"bool": db.add_quad_parts(&term(sx), &term(px), &term(ox), &term(gx - 1))}),
+                            _ => json!({"bool": db.dataset_index.insert_quad(&q)}),
+                        }
                     }
                     "D" => {
                         let q = quad(a, 1);
-                        let b = if via_db { db.delete_quad(&q) } else { db.dataset_index.delete_quad(&q) };
+                        let (sx, px, ox, gx) = (a[1].as_u64().unwrap(), a[2].as_u64().unwrap(), a[3].as_u64().unwrap(), a[4].as_u64().unwrap());
+                        let b = match via.as_str() {
+                            "db" => db.delete_quad(&q),
+                            "parts" if gx == 0 => db.delete_triple_parts(&term(sx), &term(px), &term(ox)),
+                            "parts" => db.delete_quad(&q),   // no string-level delete for named graphs
+                            _ => db.dataset_index.delete_quad(&q),
+                        };
                         json!({"bool": b})
                     }
                     "Create" => json!({"bool": db.dataset_index.create_graph(gid(a[1].as_u64().unwrap()))}),
@@ -92,6 +168,14 @@ fn main() {
                         object: a[3].as_u64().unwrap() as u32,
                     })),
                     "LenG" => json!({"num": db.dataset_index.len_graph(gid(a[1].as_u64().unwrap()))}),
+                    "QB" => triples_out(builder(&db, a).get_triples().into_iter().collect()),
+                    "QBDec" => {
+                        let mut v: Vec<[i64; 4]> = builder(&db, a).get_decoded_triples().iter()
+                            .map(|(s, p, o)| [unterm(s), unterm(p), unterm(o), 0]).collect();
+                        v.sort();
+                        json!({"quads": v})
+                    }
+                    "QBCount" => json!({"num": builder(&db, a).count()}),
                     other => panic!("unknown op {}", other),
                 };
                 step_outs.push(out);
